@@ -349,7 +349,7 @@ def vectors(tier):
                         add(tuple(v))
     if tier == "thorough":
         # full product over the dimensions that interact (mode, in, out, key) x reduced mode numbers x extras
-        for v in itertools.product(MODES, INS, OUTS, KEYS, ["absent", "2", "5", "abc"], ["absent", "1", "3"], NS, EXTRAS):
+        for v in itertools.product(MODES, INS, OUTS, KEYS, CMODES, HMODES, NS, EXTRAS):  # the full product of all value classes
             add(v)
     return seen
 
@@ -360,7 +360,7 @@ def run(pid, tier, replay=None):
     level = "exploration"
     rule = ("real binary (ASan build of main.cpp + libraries from the working tree); option vectors = product of value classes "
             "mode(%d) x input(%d) x output(%d) x key(%d) x cmode(%d) x hmode(%d) x no_echo(2) x extra(3): quick = every single deviation from 4 base lines + every pair of values of two dimensions completed from 2 base lines; "
-            "thorough adds the full product over mode x input x output x key x reduced mode numbers x no_echo x extra; one evaluation = one process run; oracle: no signal/sanitizer report, exit 0 <=> effect confirmed by the reference "
+            "thorough = the full product of all value classes; one evaluation = one process run; oracle: no signal/sanitizer report, exit 0 <=> effect confirmed by the reference "
             "(file equals documented format / plaintext restored / tag valid), mandatory outcomes only where the documentation is unambiguous; distinct = distinct vectors") % tuple(len(d) for d in DIMS[:6])
     assumptions = ["interactive prompt mode (argc == 1) excluded, as the property says", "production chunk size (16 MiB): files are single-chunk; multi-chunk behaviour is C01/C02's subject",
                    "random key and IV seed are outputs: the printed key is parsed and the IV fields are read back from the written file", "reference = tools/src/reftool.cpp over ref/ref.hpp (libcrypto)"]
